@@ -19,6 +19,7 @@ git -C /repo worktree remove --force $W
 echo "suite with change: $SUITE"; echo "demo clean exit=$DEMO_CLEAN, with change exit=$DEMO_MUT"
 RES=""
 git -C /repo diff --quiet || { echo "/repo not clean"; exit 2; }
+EVB=$(mktemp -d /tmp/evbak.XXXX); cp -r $V/evidence/. $EVB/
 git -C /repo apply $OUT/patch.diff || exit 2
 for P in "$@"; do
   O=$( cd $V && ./check $P 2>&1 | grep -E "^(VIOLATION|KNOWN-FINDING|C[0-9]+ tier|INFRA)" | head -8 ); RC=$?
@@ -26,6 +27,8 @@ for P in "$@"; do
   RES="$RES\n[$P]\n$O"
 done
 git -C /repo checkout -- .
+# evidence written while the change was applied does not describe /repo: put the previous files back
+rm -rf $V/evidence; mkdir -p $V/evidence; cp -r $EVB/. $V/evidence/; rm -rf $EVB
 git -C /repo diff --quiet || echo "WARNING /repo not clean after undo"
 /venv/bin/python - "$OUT" "$NAME" "$SUITE" "$DEMO_CLEAN" "$DEMO_MUT" "$DEMOMSG" "$(echo -e "$RES")" "$*" <<'PY'
 import json, sys, os
